@@ -13,6 +13,8 @@ from .tlc import MachineryError, Scratch, TLCResult
 
 ROOT = Path(__file__).resolve().parent.parent
 KNOWN = ROOT / "known_findings.json"
+# evidence and replay files go to /verif unless a self-test run (seeded changes) redirects them
+OUT = Path(os.environ.get("VERIF_OUT_DIR") or ROOT)
 
 
 def stable_hash(obj: Any) -> str:
@@ -34,6 +36,7 @@ class Ctx:
         self.trace_lines = 0         # code -> spec trace events validated by TLC
         self.evaluations = 0
         self.nontrivial: set[str] = set()
+        self.nontrivial_n = 0
         self.samples: list[Any] = []
         self.violations: list[dict] = []
         self.known_hits: dict[str, int] = {}
@@ -98,7 +101,7 @@ class Ctx:
                     v["count"] += 1
             return
         self._seen_sigs.add(sig_key)
-        d = ROOT / "replays" / self.pid
+        d = OUT / "replays" / self.pid
         d.mkdir(parents=True, exist_ok=True)
         path = d / f"{sig_key}.json"
         path.write_text(json.dumps({"property": self.pid, "signature": sig, "what": what, "seed": self.seed,
@@ -112,15 +115,17 @@ class Ctx:
             kid = e.get("id", stable_hash(e.get("signature")))
             if self.known_hits.get(kid):
                 print(f"KNOWN-FINDING: property={self.pid} {e.get('what', kid)} [hits={self.known_hits[kid]}]")
-        for v in self.violations:
-            print(f"VIOLATION property={self.pid} replay={v['path']}  ({v['what']}; {v['count']} case(s))")
+        for v in self.violations[:40]:
+            print(f"VIOLATION property={self.pid} replay={v['path']}  ({v['what'][:260]})")
+        if len(self.violations) > 40:
+            print(f"... and {len(self.violations) - 40} more violations (replay files under {OUT / 'replays' / self.pid})")
         cov: dict[str, Any] = {
             "states": self.states,
             "transitions": self.transitions,
             "traces_validated_against_impl": self.replayed + self.trace_lines,
             "samples": self.samples or ["(none)"],
             "evaluations": self.evaluations,
-            "distinct_nontrivial": len(self.nontrivial),
+            "distinct_nontrivial": len(self.nontrivial) + self.nontrivial_n,
             "rule": self.rule,
             "exhaustive": self.exhaustive,
             "tlc_runs": self.tlc_runs,
@@ -141,12 +146,12 @@ class Ctx:
             "wall_s": round(wall, 2),
             "violations": len(self.violations),
         }
-        (ROOT / "evidence").mkdir(exist_ok=True)
-        (ROOT / "evidence" / f"{self.pid}.json").write_text(json.dumps(ev, indent=1, default=str))
+        (OUT / "evidence").mkdir(parents=True, exist_ok=True)
+        (OUT / "evidence" / f"{self.pid}.json").write_text(json.dumps(ev, indent=1, default=str))
         self.scratch.cleanup()
         print(f"[{self.pid}] tier={self.tier} seed={self.seed} states={self.states} transitions={self.transitions} "
               f"replayed={self.replayed} trace_events={self.trace_lines} evaluations={self.evaluations} "
-              f"nontrivial={len(self.nontrivial)} known_hits={sum(self.known_hits.values())} "
+              f"nontrivial={len(self.nontrivial) + self.nontrivial_n} known_hits={sum(self.known_hits.values())} "
               f"violations={len(self.violations)} wall={wall:.1f}s")
         return 1 if self.violations else 0
 
